@@ -154,12 +154,45 @@ def run(rep, tier):
             if t[6] != a:
                 rep.violation('PauliString<%d>::from_str/str' % W, 'wrong-result', a, 'text round trip', a, t[6])
 
+    # ---------- E. FlexPauliString (phases +, i, -, -i): products incl. the carry i*i = -1, different lengths, tensor sum
+    flex_products(rep, svh, rng, 600 if quick else 20000)
     # ---------- D. refusals: measurement / reset / noise / out-of-range targets
     refusal_cases(rep, svh, rng, gates, 400 if quick else 8000)
     svh.close()
     rep.cov['rule'] = ('A: every unitary gate name/alias x all local Paulis at word-boundary positions x W; B: random circuits '
                        '(sizes %s, repeated/overlapping targets, mixed case names); C: products/commutation/weight/order/text; '
                        'D: refusal rules. Non-trivial = string has a non-identity Pauli; distinct = distinct (string, circuit).' % gen.SIZES)
+
+
+PHASES = ['+', '+i', '-', '-i']
+
+
+def flex_products(rep, svh, rng, count):
+    cases = []
+    for k in range(count):
+        n = rng.choice([1, 1, 2, 3, 5, 63, 64, 65, 130])
+        m = n if rng.random() < 0.6 else rng.choice([1, 2, max(1, n - 1), n + 1, 70])
+        dens = rng.choice([0.3, 0.8, 1.0])
+        a = ''.join(rng.choice('XYZ') if rng.random() < dens else '_' for _ in range(n))
+        b = ''.join(rng.choice('XYZ') if rng.random() < dens else '_' for _ in range(m))
+        pa, pb = rng.randrange(4), rng.randrange(4)
+        if k % 3 == 0:
+            pb = rng.choice([1, 3])          # imaginary right operand (the i * i carry)
+        cases.append((pa, a, pb, b))
+    out = svh.request('flex_pauli', [], '\n'.join('mul %s%s %s%s\nadd %s%s %s%s' % (PHASES[pa], a, PHASES[pb], b, PHASES[pa], a, PHASES[pb], b)
+                                                   for pa, a, pb, b in cases))
+    L = [max(len(a), len(b)) for pa, a, pb, b in cases]
+    mo = core.run_svm(''.join('mul +%s +%s\n' % (a + '_' * (l - len(a)), b + '_' * (l - len(b))) for (pa, a, pb, b), l in zip(cases, L)))
+    for k, ((pa, a, pb, b), l) in enumerate(zip(cases, L)):
+        ek, ebits = mo[k].split(' ')
+        exp_mul = PHASES[(pa + pb + int(ek)) % 4] + ebits[1:]
+        exp_add = PHASES[(pa + pb) % 4] + a + b
+        rep.count(('flex', pa, a, pb, b), nontrivial=pb in (1, 3))
+        inp = '%s%s , %s%s' % (PHASES[pa], a, PHASES[pb], b)
+        if out[2 * k] != exp_mul:
+            rep.violation('FlexPauliString::operator*', 'wrong-result', inp, 'product (with its power of i) differs from the Pauli algebra', exp_mul, out[2 * k])
+        if out[2 * k + 1] != exp_add:
+            rep.violation('FlexPauliString::operator+', 'wrong-result', inp, 'tensor sum differs', exp_add, out[2 * k + 1])
 
 
 def refusal_cases(rep, svh, rng, gates, count):
